@@ -203,3 +203,187 @@ Proof.
   rewrite (macros_render_identity _ s (pre ++ value ++ post) false Q1) by (rewrite Q2; reflexivity).
   reflexivity.
 Qed.
+
+(* ---- an escaped invocation is left as written, without its backslash (C17, C11) ---- *)
+Definition punct_set : list citem :=
+  match re_ast re_macros_render_0 with
+  | RSeq _ (RSeq _ (RSeq _ (RSeq (RGrp _ (RSeq (RSet false items) _)) _))) => items
+  | _ => []
+  end.
+
+Lemma complex_shape : exists tail, re_ast re_macros_render_0 =
+  RSeq (RRep true 0 (Some 1) (RLit 92)) (RSeq (RLit 123) (RSeq (RGrp 1 (RRep true 1 None (RSet false name_set)))
+       (RSeq (RGrp 2 (RSeq (RSet false punct_set) tail)) (RLit 125)))).
+Proof. eexists. reflexivity. Qed.
+
+(* the name alphabet is a subset of the Latin-1 / BMP word characters: what matters here is only that none of
+   backslash, the braces and the four parameter punctuation marks belongs to it *)
+Lemma name_set_excludes : forallb (fun x => negb (set_match false name_set x)) [92; 123; 125; 33; 61; 124; 63] = true.
+Proof. vm_compute. reflexivity. Qed.
+
+Lemma punct_only x : set_match false punct_set x = true -> In x [33; 61; 124; 63].
+Proof.
+  unfold punct_set. cbn. unfold set_match, in_items. cbn [existsb in_item negb xorb].
+  intros H. repeat (apply orb_prop in H as [H|H]);
+    try (apply andb_prop in H as [H1 H2]; apply N.leb_le in H1, H2; assert (E : x = 33 \/ x = 61 \/ x = 124 \/ x = 63) by lia;
+         destruct E as [-> | [-> | [-> | ->]]]; cbn; auto 10);
+    try discriminate.
+Qed.
+
+Lemma run_next (P Q : char -> bool) stop : P stop = false -> Q stop = false -> (forall x, P x = true -> Q x = false) ->
+  forall name u y rest' post, (forall x, In x name -> P x = true) -> (forall x, In x u -> P x = true) -> Q y = true ->
+  name ++ stop :: post = u ++ y :: rest' -> False.
+Proof.
+  intros Hp Hq Hpq. induction name as [|a name IH]; intros u y rest' post Hn Hu Hy E.
+  - destruct u as [|b u]; cbn in E; inversion E; subst.
+    + congruence.
+    + rewrite Hu in Hp by (left; reflexivity). discriminate.
+  - destruct u as [|b u]; cbn in E; inversion E; subst.
+    + rewrite (Hpq y) in Hy; [discriminate|]. apply Hn. left. reflexivity.
+    + eapply (IH u y rest' post); eauto.
+      * intros x Hx. apply Hn. right. exact Hx.
+      * intros x Hx. apply Hu. right. exact Hx.
+Qed.
+
+Lemma complex_no_match i p name post : name_ok name ->
+  match_at re_macros_render_0 i p (123 :: name ++ 125 :: post) = None.
+Proof.
+  intros [Hne Hname]. assert (Hwf : wf_exact (re_ast re_macros_render_0) = true) by (vm_compute; reflexivity).
+  destruct (match_at re_macros_render_0 i p (123 :: name ++ 125 :: post)) eqn:E; [exfalso|reflexivity].
+  assert (Hex : match_at re_macros_render_0 i p (123 :: name ++ 125 :: post) <> None) by congruence.
+  apply (proj1 (match_at_iff _ _ _ _ Hwf)) in Hex as (s' & M). destruct complex_shape as (tail & Sh). rewrite Sh in M. cbn [mx] in M.
+  destruct M as (s1 & (n & Hbs & _ & _) & s2 & (x & t & Hr & Hx & ->) & s3 & (s3' & (k & Hit & Hk & _) & ->) & s4 &
+                 (s4' & (s5 & (y & t5 & Hr5 & Hy & ->) & _) & _) & _).
+  assert (s1 = mkSt i p (123 :: name ++ 125 :: post) []).
+  { destruct n as [|n]; [exact Hbs|]. exfalso. cbn [iterR mx] in Hbs. destruct Hbs as (sx & (z & tz & Hrz & Hz & _) & _).
+    apply lit_match in Hz. subst z. cbn in Hrz. inversion Hrz. }
+  subst s1. cbn [st_rest st_i st_p st_c] in *. inversion Hr; subst x t. clear Hr Hx.
+  apply iter_set_run in Hit as (u & Eu & Hu & _). cbn [st_rest] in *. rewrite Hr5 in Eu.
+  pose proof name_set_excludes as Hex. cbn [forallb] in Hex.
+  repeat match goal with H : _ && _ = true |- _ => apply andb_prop in H as [? H] end.
+  repeat match goal with H : negb _ = true |- _ => apply negb_true_iff in H end.
+  assert (Q125 : set_match false punct_set 125 = false).
+  { destruct (set_match false punct_set 125) eqn:E5; [|reflexivity]. apply punct_only in E5. cbn in E5. intuition discriminate. }
+  assert (PQ : forall z, set_match false name_set z = true -> set_match false punct_set z = false).
+  { intros z Hz. destruct (set_match false punct_set z) eqn:Ez; [|reflexivity]. apply punct_only in Ez. cbn in Ez.
+    destruct Ez as [<-|[<-|[<-|[<-|[]]]]]; congruence. }
+  exact (run_next (set_match false name_set) (set_match false punct_set) 125 H1 Q125 PQ name u y t5 post Hname Hu Hy Eu).
+Qed.
+
+Lemma macro_first r x : In r macro_regexes -> first (re_ast r) x = true -> x = 92 \/ x = 123.
+Proof.
+  intros [<-|[<-|[]]]; [destruct complex_shape as (tail & ->)|rewrite (proj1 simple_shape)]; cbn [first nullable N.eqb orb andb];
+    unfold set_match, in_items; cbn [existsb in_item negb xorb]; intros H;
+    repeat (apply orb_prop in H as [H|H]); try discriminate;
+    apply andb_prop in H as [H1 H2]; apply N.leb_le in H1, H2; lia.
+Qed.
+
+Lemma name_no_first r name : In r macro_regexes -> name_ok name -> forall x, In x name -> first (re_ast r) x = false.
+Proof.
+  intros Hr [_ Hn] x Hx. destruct (first (re_ast r) x) eqn:E; [|reflexivity]. apply Hn in Hx.
+  pose proof name_set_excludes as Hex. cbn [forallb] in Hex.
+  repeat match goal with H : _ && _ = true |- _ => apply andb_prop in H as [? H] end.
+  repeat match goal with H : negb _ = true |- _ => apply negb_true_iff in H end.
+  apply (macro_first r x Hr) in E as [->| ->]; congruence.
+Qed.
+
+Lemma search_from_hole r : nullable (re_ast r) = false -> forall pre i p x rest,
+  (forall y, In y pre -> first (re_ast r) y = false) ->
+  match_at r (i + lenN pre) (last_of p pre) (x :: rest) = None ->
+  (forall y, In y rest -> first (re_ast r) y = false) ->
+  search_from r i p (pre ++ x :: rest) = None.
+Proof.
+  intros Hn pre i p x rest Hpre Hm Hrest. rewrite (search_from_skip r Hn pre i p (x :: rest) Hpre).
+  cbn [search_from]. rewrite Hm. apply search_from_none; assumption.
+Qed.
+
+(* a simple invocation with a backslash before it *)
+Lemma escaped_match i p name post : name_ok name ->
+  exists m, match_at re_macros_render_1 i p (92 :: 123 :: name ++ 125 :: post) = Some m /\
+    m_start m = i /\ m_end m = i + lenN (92 :: 123 :: name ++ [125]) /\ grp0 m = 92 :: 123 :: name ++ [125].
+Proof.
+  intros Hn. assert (Hwf : wf_exact (re_ast re_macros_render_1) = true) by (vm_compute; reflexivity).
+  destruct (exec_exact _ Hwf) as [S C]. destruct Hn as [Hne Hname]. destruct simple_shape as (Sh & H125 & Hng).
+  set (fin := mkSt (i + 1 + 1 + lenN name + 1) (Some 125) post
+       [(2%nat, {| c_s := i + 1 + 1 + lenN name; c_e := i + 1 + 1 + lenN name; c_txt := 125 :: post |});
+        (1%nat, {| c_s := i + 1 + 1; c_e := i + 1 + 1 + lenN name; c_txt := name ++ 125 :: post |})]).
+  assert (D : forall s', mx (re_ast re_macros_render_1) (mkSt i p (92 :: 123 :: name ++ 125 :: post) []) s' <-> s' = fin).
+  { intros s'. rewrite Sh. cbn [mx]. split.
+    - intros (s1 & (n & Hbs & _ & Hmax) & s2 & (x & t & Hr & Hx & ->) & s3 & (s3' & (k & Hit & Hk & _) & ->) & s4 & (s4' & -> & ->) & (y & t5 & Hr5 & Hy & ->)).
+      assert (s1 = mkSt (i + 1) (Some 92) (123 :: name ++ 125 :: post) []).
+      { destruct n as [|[|n]].
+        - cbn [iterR] in Hbs. subst s1. cbn in Hr. inversion Hr; subst x. apply lit_match in Hx. discriminate.
+        - cbn [iterR mx] in Hbs. destruct Hbs as (sx & (z & tz & Hrz & Hz & ->) & ->). cbn in Hrz. inversion Hrz; subst. reflexivity.
+        - unfold max_ok in Hmax. lia. }
+      subst s1. cbn [st_rest st_i st_p st_c] in *. inversion Hr; subst x t. clear Hr Hx.
+      apply iter_set_run in Hit as (u & Eu & Hu & Hc & Hi & Hp & Hl). cbn [st_rest st_i st_p st_c] in *.
+      apply lit_match in Hy. subst y. rewrite Hr5 in Eu.
+      destruct (run_unique (set_match false name_set) 125 H125 name u post t5 Hname Hu Eu) as [-> ->].
+      unfold fin. rewrite Hi, Hc, Hr5. reflexivity.
+    - intros ->. unfold fin.
+      exists (mkSt (i + 1) (Some 92) (123 :: name ++ 125 :: post) []). split.
+      { exists 1%nat. split; [|split; [lia|unfold max_ok; lia]]. cbn [iterR mx].
+        exists (mkSt (i + 1) (Some 92) (123 :: name ++ 125 :: post) []). split; [|reflexivity].
+        exists 92, (123 :: name ++ 125 :: post). cbn. auto. }
+      exists (mkSt (i + 1 + 1) (Some 123) (name ++ 125 :: post) []). split; [exists 123, (name ++ 125 :: post); cbn; auto|].
+      exists (mkSt (i + 1 + 1 + lenN name) (last_of (Some 123) name) (125 :: post)
+                   [(1%nat, {| c_s := i + 1 + 1; c_e := i + 1 + 1 + lenN name; c_txt := name ++ 125 :: post |})]). split.
+      + exists (mkSt (i + 1 + 1 + lenN name) (last_of (Some 123) name) (125 :: post) []). split; [|reflexivity].
+        exists (length name). split; [apply iter_set_intro; exact Hname|]. split; [|exact Logic.I].
+        destruct name; [congruence|]. cbn [length]. lia.
+      + exists (mkSt (i + 1 + 1 + lenN name) (last_of (Some 123) name) (125 :: post)
+                     [(2%nat, {| c_s := i + 1 + 1 + lenN name; c_e := i + 1 + 1 + lenN name; c_txt := 125 :: post |});
+                      (1%nat, {| c_s := i + 1 + 1; c_e := i + 1 + 1 + lenN name; c_txt := name ++ 125 :: post |})]).
+        split; [eexists; split; reflexivity|]. exists 125, post. cbn. auto. }
+  assert (Hex : match_at re_macros_render_1 i p (92 :: 123 :: name ++ 125 :: post) <> None).
+  { apply (proj2 (match_at_iff _ _ _ _ Hwf)). exists fin. apply D. reflexivity. }
+  unfold match_at in *. destruct (exec (re_ast re_macros_render_1) kfinal i p (92 :: 123 :: name ++ 125 :: post) []) as [[e c]|] eqn:E;
+    [|cbn in Hex; congruence].
+  apply S in E as (s' & M & Hk). apply D in M. subst s'.
+  unfold kapp, kfinal, fin in Hk. cbn in Hk. inversion Hk; subst e c. clear Hk.
+  eexists. split; [reflexivity|]. cbn [option_map mk_mres m_start m_end m_groups]. split; [reflexivity|].
+  split; [cbn [lenN]; rewrite lenN_app; cbn [lenN]; lia|].
+  unfold grp0, grp_s, grp. cbn [m_groups nth].
+  replace (i + 1 + 1 + lenN name + 1 - i) with (lenN (92 :: 123 :: name ++ [125])) by (cbn [lenN]; rewrite lenN_app; cbn [lenN]; lia).
+  replace (92 :: 123 :: name ++ 125 :: post) with ((92 :: 123 :: name ++ [125]) ++ post) by (cbn; rewrite <- app_assoc; reflexivity).
+  rewrite takeN_app_exact. reflexivity.
+Qed.
+
+Theorem escaped_invocation sr s pre name post silent :
+  quiet pre -> quiet post -> name_ok name ->
+  macros_render sr s (pre ++ 92 :: 123 :: name ++ 125 :: post) silent = iret (pre ++ 123 :: name ++ 125 :: post).
+Proof.
+  intros Hpre Hpost Hname. unfold macros_render.
+  assert (N1 : nullable (re_ast re_macros_render_1) = false) by (vm_compute; reflexivity).
+  assert (N0 : nullable (re_ast re_macros_render_0) = false) by (vm_compute; reflexivity).
+  assert (In1 : In re_macros_render_1 macro_regexes) by (right; left; reflexivity).
+  assert (In0 : In re_macros_render_0 macro_regexes) by (left; reflexivity).
+  destruct (escaped_match (lenN pre) (last_of None pre) name post Hname) as (m & Hm & Hst & Hen & Hg).
+  assert (Et : pre ++ 92 :: 123 :: name ++ 125 :: post = pre ++ (92 :: 123 :: name ++ [125]) ++ post)
+    by (cbn; rewrite <- app_assoc; reflexivity).
+  rewrite Et. unfold isub.
+  assert (Hscan : re_scan re_macros_render_1 (pre ++ (92 :: 123 :: name ++ [125]) ++ post) = ([(pre, m)], post)).
+  { apply re_scan_one; [exact N1|exact (quiet_first _ _ In1 Hpre)|exact (quiet_first _ _ In1 Hpost)| |exact Hst|exact Hen|discriminate].
+    cbn [app]. rewrite <- app_assoc. exact Hm. }
+  assert (Hrepl : macro_repl sr s (pre ++ (92 :: 123 :: name ++ [125]) ++ post) silent true m = iret (123 :: name ++ [125])).
+  { unfold macro_repl. rewrite Hg. reflexivity. }
+  assert (Hscan0 : re_scan re_macros_render_0 (pre ++ 123 :: name ++ 125 :: post) = ([], pre ++ 123 :: name ++ 125 :: post)).
+  { assert (Hh : search_from re_macros_render_0 0 None (pre ++ 123 :: name ++ 125 :: post) = None);
+      [|unfold re_scan; cbn [scan_loop]; unfold str, char in *; rewrite Hh; reflexivity].
+    apply (search_from_hole re_macros_render_0 N0 pre 0 None 123 (name ++ 125 :: post)).
+    - exact (quiet_first _ _ In0 Hpre).
+    - apply complex_no_match. exact Hname.
+    - intros y Hy. apply in_app_or in Hy as [Hy|[<-|Hy]].
+      + eapply name_no_first; eauto.
+      + destruct (first (re_ast re_macros_render_0) 125) eqn:E5; [|reflexivity]. apply (macro_first _ _ In0) in E5. lia.
+      + exact (quiet_first _ _ In0 Hpost y Hy). }
+  unfold str, char in *. rewrite Hscan. cbn [imapM snd fst]. rewrite Hrepl. cbn [ibind iret concat app]. rewrite app_nil_r.
+  rewrite <- app_assoc. cbn [app]. rewrite <- app_assoc. cbn [app].
+  rewrite Hscan0. cbn [imapM ibind iret concat app].
+  assert (H2 : existsb (N.eqb 2) (pre ++ 123 :: name ++ 125 :: post) = false).
+  { rewrite existsb_app. apply orb_false_iff. split; [apply Hpre|]. cbn [existsb]. apply orb_false_iff. split; [reflexivity|].
+    rewrite existsb_app. apply orb_false_iff. split; [|cbn [existsb]; apply orb_false_iff; split; [reflexivity|apply Hpost]].
+    destruct (existsb (N.eqb 2) name) eqn:E2; [|reflexivity]. apply existsb_exists in E2 as (z & Hz & Ez). apply N.eqb_eq in Ez. subst z.
+    pose proof (name_no_first _ name In0 Hname) as Hf. destruct Hname as [_ Hn]. apply Hn in Hz. vm_compute in Hz. discriminate. }
+  rewrite H2. reflexivity.
+Qed.
